@@ -2,6 +2,7 @@ package props
 
 import (
 	"bufio"
+	"bytes"
 	"compress/gzip"
 	"errors"
 	"fmt"
@@ -205,6 +206,7 @@ func wrap(n int, f func(i int, w io.Writer) error) []func(w io.Writer) error {
 }
 
 func runC07(r *core.Run) {
+	racePass(r, "race-formats", "all five codecs: readers each on their own stream (whole and in 7-byte reads, every corpus file), Write on shared records into separate destinations, File on one shared path; every result is compared with what the same call returned when it ran alone")
 	r.Assume("after the fault the reader returns only the error (error-forever) or io.EOF (error-once), never more data")
 	r.Bound("read-side", "per format: every small and medium corpus file (well-formed or not: for ill-formed data the same oracle applies position by position), the files with syntax the library does not support (comments, track lines, multi-line records, placeholders), the 15 placeholder-token files (\"*\", \".\", \"=\", \"0\", \"-\", \"+\", \"@\", \">\", \"#\", \";\", \"~\", \"NA\", \"\\\\N\", \"?\", \"%s\" at the start of every text field, alone and followed by more text), the ~9 KiB file and the long-line file (one line of 5000+ bytes, so faults land inside a line that spans two buffer fills) x EVERY fault offset 0..len x {error once then EOF, error forever} x {error alone, together with the last bytes} x {maximal reads, 1-byte reads}"+core.Pick(r, " (quick tier, 9 KiB file: maximal reads and the plans {once+alone, forever+with data} only)", ""))
 	core.Clause(r, "read-faults", core.Opts{Rule: "fault plans enumerated completely per input; oracle: leading records of the fault-free decode, then >= 1 error items and nothing else, iteration ends within the horizon (fault-free items + 16; a reader polled > 2000 times after the fault counts as non-terminating); non-trivial = fault strictly inside the data and at least one record before it"},
@@ -308,4 +310,151 @@ func runC07(r *core.Run) {
 			}
 			return core.Outcome{Class: fmt.Sprint("failed=", err != nil), Nontrivial: c.Limit > 0 && c.Limit < len(full.Got)}
 		})
+
+	// Long records: a writer that batches its output (bufio, a formatting buffer) handles a piece longer
+	// than its buffer differently from a short one, so the failure offsets inside and behind a long field
+	// are call sites of their own.
+	type c07Long struct {
+		Format  string `json:"format"`
+		Variant string `json:"long_part"`
+		Len     int    `json:"long_part_len"`
+		Limit   int    `json:"writer_accepts_bytes"`
+		Once    bool   `json:"fails_one_call_only,omitempty"`
+		Rich    bool   `json:"destination_also_offers_WriteByte_WriteString_ReadFrom,omitempty"`
+	}
+	r.Bound("write-side-long-records", "per format one record with one long part (FASTA name / sequence; FASTQ name / sequence+qualities; SAM Qname / Seq+Qual / a Z tag; BED Chrom / Name; Newick one name / a root with that many leaves / a chain that deep) of 5000 and 9000 bytes (beyond one and two 4096-byte buffers): EVERY failure offset; of 70000 bytes (beyond 64 KiB): offsets 0..5, every offset within 3 of a multiple of 4096, every 997th, the last 5; same writers and modes as write-faults")
+	core.Clause(r, "write-faults-long-records", core.Opts{Rule: "as write-faults, for records with one part longer than any internal buffer: Write returns non-nil iff the writer failed, wherever in or behind the long part the failure falls; non-trivial = 0 < k < len(out)"},
+		func(emit func(c07Long) bool) {
+			for _, fn := range []string{"fasta", "fastq", "sam", "bed", "newick"} {
+				for _, v := range longWriteVariants[fn] {
+					for _, n := range []int{5000, 9000, 70000} {
+						full := &envio.LimitWriter{Limit: 1 << 30}
+						longWriteRecord(fn, v, n)(full)
+						total := len(full.Got)
+						for k := 0; k <= total+1; k++ {
+							if n == 70000 && !(k <= 5 || k >= total-5 || k%4096 <= 3 || k%4096 >= 4093 || k%997 == 0) {
+								continue
+							}
+							for _, rich := range []bool{false, true} {
+								if !emit(c07Long{fn, v, n, k, false, rich}) {
+									return
+								}
+								if k < total && !emit(c07Long{fn, v, n, k, true, rich}) {
+									return
+								}
+							}
+						}
+					}
+				}
+			}
+		},
+		func(c c07Long) core.Outcome {
+			w := longWriteRecord(c.Format, c.Variant, c.Len)
+			full := &envio.LimitWriter{Limit: 1 << 30}
+			key := fmt.Sprint(c.Format, "|", c.Variant, "|", c.Len)
+			if v, ok := longWriteFull.Load(key); ok {
+				full.Got = v.([]byte)
+			} else {
+				if err := w(full); err != nil {
+					return core.Failf("%s with a long %s (%d): Write to a writer that accepts everything returned %v", c.Format, c.Variant, c.Len, err)
+				}
+				longWriteFull.Store(key, full.Got)
+			}
+			lw := &envio.LimitWriter{Limit: c.Limit, Once: c.Once}
+			var dest io.Writer = lw
+			kind := ""
+			if c.Rich {
+				rw := &envio.RichLimitWriter{LimitWriter: envio.LimitWriter{Limit: c.Limit, Once: c.Once}}
+				lw, dest, kind = &rw.LimitWriter, rw, " (destination also offers WriteByte/WriteString/ReadFrom)"
+			}
+			var err error
+			if p := catch(func() { err = w(dest) }); p != "" {
+				return core.Failf("%s with a long %s (%d): Write panicked when the writer failed after %d bytes: %s", c.Format, c.Variant, c.Len, c.Limit, p)
+			}
+			desc := fmt.Sprintf("%s record with a %s of %d (output of %d bytes)", c.Format, c.Variant, c.Len, len(full.Got))
+			if c.Once {
+				if err == nil && string(lw.Got) != string(full.Got) {
+					return core.Failf("%s: one Write call of the destination%s failed after %d bytes (later calls succeeded); Write returned nil although the destination received %d bytes that are not the record", desc, kind, c.Limit, len(lw.Got))
+				}
+				return core.Outcome{Class: fmt.Sprint(c.Variant, " transient failed=", err != nil), Nontrivial: c.Limit > 0}
+			}
+			if c.Limit < len(full.Got) && err == nil {
+				return core.Failf("%s: the writer%s failed after %d bytes but Write returned nil", desc, kind, c.Limit)
+			}
+			if c.Limit >= len(full.Got) && err != nil {
+				return core.Failf("%s: everything was accepted but Write returned %v", desc, err)
+			}
+			return core.Outcome{Class: fmt.Sprint(c.Variant, " failed=", err != nil), Nontrivial: c.Limit > 0 && c.Limit < len(full.Got)}
+		})
+}
+
+var longWriteFull sync.Map // complete output per (format, long part, length)
+
+var longWriteVariants = map[string][]string{
+	"fasta":  {"name", "sequence"},
+	"fastq":  {"name", "sequence and qualities"},
+	"sam":    {"Qname", "Seq and Qual", "Z tag"},
+	"bed":    {"Chrom", "Name"},
+	"newick": {"name", "number of leaves", "depth"},
+}
+
+// longWriteRecord: one record of the format whose named part has length (or size) n.
+func longWriteRecord(format, variant string, n int) func(w io.Writer) error {
+	long := longSeq(n)
+	switch format {
+	case "fasta":
+		rec := &fasta.Fasta{Name: []byte("n"), Sequence: []byte("ACGT")}
+		if variant == "name" {
+			rec.Name = long
+		} else {
+			rec.Sequence = long
+		}
+		return rec.Write
+	case "fastq":
+		rec := &fastq.Fastq{Name: []byte("r"), Sequence: []byte("ACG"), Quals: []byte("III")}
+		if variant == "name" {
+			rec.Name = long
+		} else {
+			rec.Sequence, rec.Quals = long, bytes.Repeat([]byte{'I'}, n)
+		}
+		return rec.Write
+	case "sam":
+		rec := &sam.SAM{Qname: "q", Rname: "r", Cigar: "1M", Rnext: "*", Seq: "A", Qual: "I", Tags: map[string]any{"NM": 1}}
+		switch variant {
+		case "Qname":
+			rec.Qname = string(long)
+		case "Seq and Qual":
+			rec.Seq, rec.Qual = string(long), strings.Repeat("I", n)
+		default:
+			rec.Tags["XZ"] = string(long)
+		}
+		return rec.Write
+	case "bed":
+		rec := &bed.BED{N: 6, Chrom: "c", ChromStart: 1, ChromEnd: 22, Name: "nm", Score: 5, Strand: "+"}
+		if variant == "Chrom" {
+			rec.Chrom = string(long)
+		} else {
+			rec.Name = string(long)
+		}
+		return rec.Write
+	case "newick":
+		root := &newick.Node{Name: "root"}
+		switch variant {
+		case "name":
+			root.Children = []*newick.Node{{Name: string(long), Distance: 1}, {Name: "b"}}
+		case "number of leaves":
+			for i := 0; i < n/4; i++ {
+				root.Children = append(root.Children, &newick.Node{Name: "x", Distance: 1})
+			}
+		default:
+			cur := root
+			for i := 0; i < n/4; i++ {
+				c := &newick.Node{Name: "x", Distance: 2}
+				cur.Children = []*newick.Node{c}
+				cur = c
+			}
+		}
+		return root.Write
+	}
+	panic("no long write record for " + format)
 }
